@@ -128,6 +128,14 @@ CLAIMS = {
         "undoubled on the entity's connector for a given layout; entity contents.",
    technique="sibling-branch comparison + key/value pass-through over dict displays + guard-chain analysis",
    ref="DESIGN.md §2 C06"),
+ "C12": dict(
+   text="Static analysis (thin, stated as such) of the one mechanism that keeps networks apart where the compiler adds shared infrastructure: network ids keyed by (source, colour) with a "
+        "counter that advances per new key; the id of the edge's own source group reaches the relay router on both routing paths; relays are offered for reuse only after can_route_network "
+        "(whose body must be `colour free or same id`) and every hop used is recorded; the conflict graph groups by (sink, resolved signal), exempts only same-merge pairs and pushes the opposite "
+        "colour to neighbours. NOT decided: non-interference itself — two sources of different signals feeding one sink on one colour join their networks by design; whether anything of P becomes "
+        "visible in Q is a property of the whole wired graph under a given layout.",
+   technique="CFG/guard-chain checks on the network-id and relay-reuse code + structural check of the conflict-graph construction",
+   ref="DESIGN.md §2 C12"),
 }
 NA_DEFAULT = "check not built yet (build phase in progress); see DESIGN.md for the planned rules"
 NA = {}
